@@ -356,6 +356,12 @@ def build_parent(rng: random.Random, struct: dict) -> None:  # noqa: C901, PLR09
                         it["type"] = it["type"] or rng.choice(TYPES)
             del want["returns"]
         elems = {k: [rng.choice(SIMPLE_TYPES) for _ in range(n)] for k, n in want.items()}
+        for k, n in want.items():
+            # a *single* undocumented-type item whose signature type is itself a tuple: the item gets the whole tuple
+            # (Google only: its docs-backed rule is "one item -> the whole annotation"; Numpy always indexes tuple elements
+            # and its documentation does not say what a single item of a tuple-returning function gets)
+            if n == 1 and struct["style"] == "google" and rng.random() < 0.35:
+                elems[k] = [rng.choice(["tuple[int, str]", "tuple[str, bool, int]"])]
 
         def compose(ts: list[str]) -> str:
             return ts[0] if len(ts) == 1 else f"tuple[{', '.join(ts)}]"
